@@ -144,12 +144,14 @@ fn run_case(below: &[T], parents: &[T], offspring: &[T], op: Op, seed: u64) -> O
 }
 
 fn all_pops(max: usize, tag0: u32) -> Vec<Vec<T>> {
-    let grid = [-1.0f64, 0.0, 2.0, f64::INFINITY];
+    // -0.0 and 0.0 are the same objective value: a tie like any other
+    let grid = [-1.0f64, 0.0, -0.0, 2.0, f64::INFINITY];
+    let g = grid.len();
     let mut out = vec![vec![]];
     for len in 1..=max {
-        for code in 0..grid.len().pow(len as u32) {
+        for code in 0..g.pow(len as u32) {
             let mut c = code;
-            out.push((0..len).map(|i| { let v = grid[c % 4]; c /= 4; (tag0 + i as u32, v.to_bits()) }).collect());
+            out.push((0..len).map(|i| { let v = grid[c % g]; c /= g; (tag0 + i as u32, v.to_bits()) }).collect());
         }
     }
     out
@@ -157,7 +159,7 @@ fn all_pops(max: usize, tag0: u32) -> Vec<Vec<T>> {
 
 fn main() {
     let rep = Reporter::from_args("C12");
-    rep.rule("all pairs of parent/offspring populations of uniquely tagged individuals of size 0..max over objective values {-1,0,2,+inf} (ties and duplicates of values included) under a third untouched population, x all six replacement components x mu in 0..total+2 (x seeds for the random one): height -1, bottom untouched, result a sub-multiset of parents+offspring, content as the operator is named (parents / offspring / concatenation / min(mu,total) best with no discarded individual better than a kept one / any min(mu,total) / index-wise better with ties to the parent and Err on unequal sizes); plus random larger populations. distinct_nontrivial = distinct (operator, parents, offspring) cells (sampled 1/5)");
+    rep.rule("all pairs of parent/offspring populations of uniquely tagged individuals of size 0..max over objective values {-1,0,-0,2,+inf} (ties and duplicates of values included, signed zeros tie) under a third untouched population, x all six replacement components x mu in 0..total+2 (x seeds for the random one): height -1, bottom untouched, result a sub-multiset of parents+offspring, content as the operator is named (parents / offspring / concatenation / min(mu,total) best with no discarded individual better than a kept one / any min(mu,total) / index-wise better with ties to the parent and Err on unequal sizes); plus random larger populations (incl. values one rounding error apart, which are different and must be told apart). distinct_nontrivial = distinct (operator, parents, offspring) cells (sampled 1/5)");
     let max = rep.tier.pick(4usize, 5usize);
     rep.set("exhaustive_max_population_size", json!(max));
     let parents_all = all_pops(max, 1);
@@ -205,7 +207,8 @@ fn main() {
             (0..rng.usize(13))
                 .map(|_| {
                     tag += 1;
-                    let v = if rng.chance(0.1) { f64::INFINITY } else { (rng.below(9) as f64) - 4.0 };
+                    // incl. values one rounding error apart (0.6 / 0.6000000000000001): different, not tied
+                    let v = if rng.chance(0.1) { f64::INFINITY } else if rng.chance(0.15) { *rng.pick(&[0.6, 0.6000000000000001, 0.6000000000000002, -0.0]) } else { (rng.below(9) as f64) - 4.0 };
                     (tag, v.to_bits())
                 })
                 .collect()
